@@ -292,6 +292,7 @@ func runC02(r *Run, rng *Rng, thorough bool) {
 			}
 		}
 	}
+	handSignedChecks(r, rng)
 }
 
 func runC03(r *Run, rng *Rng, thorough bool) {
